@@ -91,7 +91,7 @@ func (p *listProp) Gen(r *Rand, tier string, idx int) any {
 	if r.Chance(0.6) {
 		lp.ClientN = r.Range(1, 7)
 	}
-	lp.Profile = RegProfile{ReferrersAPI: !lp.NoAPI, DigestHeader: r.Bool(), LinkForm: r.Intn(6), NoContentLength: r.Chance(0.3)}
+	lp.Profile = RegProfile{ReferrersAPI: !lp.NoAPI, DigestHeader: r.Bool(), LinkForm: r.Intn(8), NoContentLength: r.Chance(0.3)}
 	if lp.NoAPI {
 		// by-tag fetches need a digest header or a Content-Length to build a descriptor (client requirement, see C13)
 		lp.Profile.DigestHeader = true
